@@ -102,6 +102,78 @@ func c12Maps(cmd []string, out string) map[string][]*big.Rat {
 	return m
 }
 
+// c12Mags: for a period command, the sum of the magnitudes of everything the entries of blocks 0..upto add to each
+// figure of its report (keys as in c12Maps), the same over all figures, and the number of entries.
+func c12Mags(cmd []string, c c12Case, upto int, m vResolved) (map[string]*big.Rat, *big.Rat, int) {
+	mags := map[string]*big.Rat{}
+	all := new(big.Rat)
+	n := 0
+	add := func(key string, v *big.Rat) {
+		cur, ok := mags[key]
+		if !ok {
+			cur = new(big.Rat)
+			mags[key] = cur
+		}
+		cur.Add(cur, v)
+	}
+	coef := func(f, e string) *big.Rat {
+		if em, ok := m.Elems[f]; ok {
+			if v, ok := em[e]; ok {
+				return v.Mag
+			}
+			return new(big.Rat)
+		}
+		if f == e {
+			return big.NewRat(1, 1)
+		}
+		return new(big.Rat)
+	}
+	x := ""
+	for i := 0; i+1 < len(cmd); i++ {
+		if cmd[i] == "-s" {
+			x = cmd[i+1]
+		}
+	}
+	for j := 0; j <= upto && j < len(c.Blocks); j++ {
+		for _, r := range c.Blocks[j].Recs {
+			for _, l := range r.Lines {
+				if l.Kind != vkEntry {
+					continue
+				}
+				n++
+				q := vRatAbs(vRat(l.Num))
+				switch {
+				case cmd[0] == "bal":
+					w := q
+					if x != "" {
+						w = vRatMul(q, coef(l.Name, x))
+					}
+					all.Add(all, w)
+					segs := strings.Split(l.Name, "/")
+					for i := range segs {
+						add("path:"+strings.Join(segs[:i+1], "/"), w)
+					}
+				case len(cmd) > 1 && cmd[1] == "totals":
+					if em, ok := m.Elems[l.Name]; ok {
+						for e, v := range em {
+							w := vRatMul(q, v.Mag)
+							add(e, w)
+							all.Add(all, w)
+						}
+					} else {
+						add(l.Name, q)
+						all.Add(all, q)
+					}
+				default:
+					add(l.Name, q)
+					all.Add(all, q)
+				}
+			}
+		}
+	}
+	return mags, all, n
+}
+
 func checkC12(c c12Case, ctx *vCtx) *vFailure {
 	bookPath := vWriteFile("c12-book.yaml", c.S.Book.Render())
 	subst := func(cmd []string) []string {
@@ -150,6 +222,7 @@ func checkC12(c c12Case, ctx *vCtx) *vFailure {
 	ctx.NonTrivial(len(c.Blocks) >= 3 && (repeated || empty || permuted))
 	ctx.Labelf("blocks=%d", len(c.Blocks))
 
+	model := vModelResolve(c.S.Book.Parsed())
 	ncmd := len(c12PerDay) + len(c12Period)
 	partOut := make([][]string, len(c.Blocks)) // [block][cmd]
 	whole := ""
@@ -179,6 +252,7 @@ func checkC12(c c12Case, ctx *vCtx) *vFailure {
 		}
 		for ci, cmd := range c12Period {
 			got := c12Maps(cmd, run(whole, cmd))
+			mags, magAll, nEntries := c12Mags(subst(cmd), c, k, model)
 			sum := map[string][]*big.Rat{}
 			nparts := map[string]int{}
 			for j := 0; j <= k; j++ {
@@ -218,7 +292,14 @@ func checkC12(c c12Case, ctx *vCtx) *vFailure {
 					if !c.S.Exact {
 						// half a cent per printed figure + float64 resolution at this magnitude
 						tol = vRatMul(big.NewRat(int64(nparts[name])+1, 2), vCent)
-						tol.Add(tol, vRatMul(big.NewRat(int64(nparts[name])+1, 1000000000000000), vRatAbs(vals[i])))
+						// what float64 may lose: one rounding per addition (at most one addition per entry of the log), each
+						// relative to the magnitude of everything that was added to this figure (not to the figure itself,
+						// which may be what is left after large amounts cancelled)
+						mag, ok := mags[name]
+						if !ok || strings.HasPrefix(name, "\x00") {
+							mag = magAll
+						}
+						tol.Add(tol, vRatMul(big.NewRat(int64(nEntries+nparts[name]+8)*46, 100000000000000000), mag))
 						if name == "\x00top-level-sum" { // a sum of that many printed figures
 							tol.Add(tol, vRatMul(big.NewRat(extraRows, 2), vCent))
 						}
